@@ -257,6 +257,8 @@ struct RtCase {
     core: Vec<P>,
     clauses: Vec<SP>,
     vars: Vec<Ty>,
+    /// alias[i] = the clause whose body clause i shares (`p_j | p_i -> body`), i itself otherwise
+    alias: Vec<usize>,
     origin: &'static str,
 }
 
@@ -293,6 +295,9 @@ fn module_src(c: &RtCase, probes: &[(String, String)], style_seed: u64) -> Strin
     let mut src = types_src(&c.sig);
     src.push_str("type ZzRes {\n");
     for (i, p) in c.clauses.iter().enumerate() {
+        if c.alias[i] != i {
+            continue;
+        }
         let mut vs = vec![];
         clause_vars(p, &mut vs);
         if vs.is_empty() {
@@ -327,8 +332,17 @@ fn module_src(c: &RtCase, probes: &[(String, String)], style_seed: u64) -> Strin
         ));
     } else {
         src.push_str(&format!("fn f(x: {}) -> ZzRes {{\n  when x is {{\n", texpr(&c.sig, c.scrut)));
-        for (i, p) in c.clauses.iter().enumerate() {
-            src.push_str(&format!("    {} -> {}\n", sp_src(&c.sig, p, &mut rng), bodies[i]));
+        let mut i = 0;
+        while i < c.clauses.len() {
+            // alternative patterns: consecutive clauses sharing one body
+            let mut pats = vec![sp_src(&c.sig, &c.clauses[i], &mut rng)];
+            let mut j = i + 1;
+            while j < c.clauses.len() && c.alias[j] == i {
+                pats.push(sp_src(&c.sig, &c.clauses[j], &mut rng));
+                j += 1;
+            }
+            src.push_str(&format!("    {} -> {}\n", pats.join(" | "), bodies[i]));
+            i = j;
         }
         src.push_str("  }\n}\n\n");
     }
@@ -499,7 +513,32 @@ fn run_case(case: &Case, seed: u64, versions: &[PlutusVersion]) -> RtOutcome {
     let mut vg = VarGen { sig: &case.sig, rng: Prng::new(seed), vars: vec![] };
     let clauses: Vec<SP> = case.clauses.iter().map(|p| vg.sp(p, case.scrut, false)).collect();
     let vars = vg.vars.clone();
-    let c = RtCase { sig: case.sig.clone(), scrut: case.scrut, core: case.clauses.clone(), clauses, vars, origin: case.origin };
+    // alternatives: a variable-free clause may share the body of the previous variable-free clause
+    let mut alias: Vec<usize> = (0..clauses.len()).collect();
+    {
+        let mut arng = Prng::new(seed ^ 0xA17);
+        for i in 1..clauses.len() {
+            let mut a = vec![];
+            clause_vars(&clauses[i], &mut a);
+            let mut b = vec![];
+            clause_vars(&clauses[alias[i - 1]], &mut b);
+            if a.is_empty() && b.is_empty() && clauses.len() > 2 && arng.chance(1, 3) {
+                alias[i] = alias[i - 1];
+            }
+        }
+    }
+    if alias.iter().enumerate().any(|(i, a)| *a != i) {
+        o.counts.push("feature:alternative-patterns".into());
+    }
+    let c = RtCase {
+        sig: case.sig.clone(),
+        scrut: case.scrut,
+        core: case.clauses.clone(),
+        clauses,
+        vars,
+        alias,
+        origin: case.origin,
+    };
     // values
     let all: Vec<&P> = c.core.iter().collect();
     let en = Enum::new(&c.sig, &all);
@@ -565,7 +604,7 @@ fn run_case(case: &Case, seed: u64, versions: &[PlutusVersion]) -> RtOutcome {
         };
         reached.insert(i);
         let expected = if bs.is_empty() {
-            format!("Zz{}", i)
+            format!("Zz{}", c.alias[i])
         } else {
             format!(
                 "Zz{}({})",
